@@ -12,7 +12,8 @@ RULE = ("Source and Load are free-free spring-mass-damper networks (3..8 and 2..
         "given as (a) a recovery matrix on the physical model or on its modal form (m=I, k=diag, b full, "
         "bdof = rows of the mode shapes) or (b) a partition vector on the Craig-Bampton form produced by an "
         "own CB transformation with all modes kept, its DOF b-first or in a random order (partition vector then "
-        "non-contiguous and non-ascending); 2..15 frequencies log-uniform over the band of the modes "
+        "non-contiguous and non-ascending); optionally a skew-symmetric (gyroscopic) part in either damping "
+        "matrix (non-reciprocal model: non-symmetric accelerance); 2..15 frequencies log-uniform over the band of the modes "
         "plus near-resonance points; complex external forces on random source DOF.  Oracle: dense complex "
         "solve of the physically coupled system assembled by the check (shared interface DOF merged): "
         "interface acceleration and force transmitted to the Load; free acceleration from the Source alone; "
@@ -77,6 +78,19 @@ def oracle(case, R):
     nb = max(nb, 1)
     MS, CS, KS = network(rng, nS, case["propS"], case["zeta"])
     ML, CL, KL = network(rng, nL, case["propL"], case["zeta"])
+    # non-reciprocal models: a skew-symmetric (gyroscopic) part in the damping matrix makes the boundary
+    # accelerance non-symmetric (H12 != H21), so a transposed apparent mass is no longer the same matrix
+    for side, C_ in (("S", CS), ("L", CL)):
+        g = case.get("gyro" + side, 0.0)
+        if g and C_.shape[0] >= 2:
+            Gs = util.rng_of(case["seed"] + (17 if side == "S" else 19)).standard_normal(C_.shape)
+            Gs = Gs - Gs.T
+            # internal forces only (no net force, no force from a rigid-body velocity): G 1 = 0 and 1^T G = 0,
+            # so the rigid-body mode stays undamped and uncoupled as in a physical network
+            Pj = np.eye(C_.shape[0]) - np.ones(C_.shape) / C_.shape[0]
+            Gs = Pj @ Gs @ Pj
+            C_ += g * np.abs(C_).max() * Gs / max(np.abs(Gs).max(), 1e-300)
+            R.label(f"gyro{side}")
     bS = sorted(rng.choice(nS, nb, replace=False).tolist())
     bL = sorted(rng.choice(nL, nb, replace=False).tolist())
     freq = np.array(case["freq"], float)
@@ -220,7 +234,8 @@ def cases(draw):
             "zeta": draw(st.sampled_from([0.01, 0.05, 0.2])), "freq": freq, "nforce": draw(st.integers(1, 3)),
             "formS": draw(st.sampled_from(["drm", "modal", "cb"])),
             "formL": draw(st.sampled_from(["drm", "modal", "cb"])),
-            "cbpermS": draw(st.booleans()), "cbpermL": draw(st.booleans())}
+            "cbpermS": draw(st.booleans()), "cbpermL": draw(st.booleans()),
+            "gyroS": draw(st.sampled_from([0.0, 0.0, 0.3, 1.0])), "gyroL": draw(st.sampled_from([0.0, 0.0, 0.3, 1.0]))}
 
 
 PARTS = [
